@@ -9,7 +9,8 @@ from harness.common import F, enc, fl
 
 ID = "C13"
 PROPS_FILE = "Props/C13.v"
-COQ_IMPORTS = "From SA Require Import Model.BootHarness."
+COQ_IMPORTS = ("From SA Require Import Model.BootHarness.\nFrom SA Require Model.FloatQuantile.\n"
+               "From Coq Require Import Floats.PrimFloat.")
 GEN_AVAILABLE = set()
 
 
@@ -36,7 +37,10 @@ TRUSTED = [
     "cdf(-inf) = 0, cdf(+inf) = 1, NaN propagates (modelled: ppf_x, cdf_x)",
     "x ** 1.5 is an oracle (pow15) with homogeneity pow15(c^2 x) = c^3 pow15(x) for c > 0 (used only for affine "
     "equivariance of the acceleration)",
-    "float arithmetic is exact-rational in the model; float division s/0.0 at the pole of the acceleration term gives "
+    "Model/FloatQuantile.v: binary64 model (Coq primitive floats, kernel-evaluated) of numpy's linear-method quantile "
+    "on a sorted finite column: virtual index (n-1)*q, floor, gamma, _lerp with the t >= 0.5 branch; every finite limit "
+    "returned by bootstrap_ci is compared bit for bit with it at the levels the implementation used",
+    "float arithmetic is exact-rational in the proved model; float division s/0.0 at the pole of the acceleration term gives "
     "+-inf by the sign of s (modelled in bca_arg)",
     "the harness records the arguments/results of the implementation's norm.ppf / norm.cdf calls by wrapping "
     "scipy.stats.norm in the driver process; (sum d^2) ** 1.5 is evaluated by numpy in the harness",
@@ -385,7 +389,51 @@ def _finite_q(s):
 METHOD_COQ = {"quantile": "MQuantile", "bc": "MBc", "bca": "MBca"}
 
 
+def _float_quantile_term(case, r):
+    """binary64 model of np.nanquantile(method='linear') (Model/FloatQuantile.v): every finite limit bit for bit, at the
+    levels the implementation used (quantile: alpha/2 and 1 - alpha/2 in double arithmetic; bc / bca: the recorded
+    results of its two norm.cdf calls)"""
+    method = case["method"]
+    size = _prod(case["Y"])
+    _, al = _alphas(case)
+    nz = len(al)
+    cols = _columns(case)
+    if len(r["ci"]) != size * nz * 2:
+        return None
+    out = []
+    for j in range(size):
+        fin = sorted(float(x) for x in cols[j] if x is not None)
+        if not fin:
+            continue
+        pairs = []
+        for k, a in enumerate(al):
+            if method == "quantile":
+                levels = (a / 2.0, 1 - a / 2.0)
+            else:
+                if len(r.get("cdf", [])) != 2 or len(r["cdf"][0][1]) != size:
+                    return None
+                levels = (_num(r["cdf"][0][1][j]), _num(r["cdf"][1][1][j]))
+            for t, lv in enumerate(levels):
+                got = r["ci"][(j * nz + k) * 2 + t]
+                if got is None or math.isnan(lv) or not (0.0 <= lv <= 1.0) or not math.isfinite(_num(got)):
+                    continue
+                pairs.append(f"({cq.f64(lv)}, {cq.f64(_num(got))})")
+        if pairs:
+            out.append(f"({cq.f64list(fin)}, [{'; '.join(pairs)}])")
+    return f"(FloatQuantile.fq_check [{'; '.join(out)}])" if out else None
+
+
 def coq_term(case, res):
+    t = _coq_term_exact(case, res)
+    if "ok" not in res or t == "false":
+        return t
+    ft = _float_quantile_term(case, res["ok"])
+    if t is None:
+        return ft
+    return t + (f" && {ft}" if ft else "")
+
+
+def _coq_term_exact(case, res):
     method = case["method"]
     Y = case["Y"]
     size = _prod(Y)
